@@ -52,3 +52,5 @@ roundtrip_contract!(ser__tracing_secret_key, TracingSecretKey, {
 roundtrip_contract!(ser__xenc_classic, XEnc, XEnc { tag: kani::any(), c: vec![Pk { 0: any_fe() }, Pk { 0: any_fe() }], encapsulations: Encapsulations::CEncs(vec![kani::any()]) });
 // @obl props=C13,C07,C11 tier=quick class=bounded fn=core::serialization::XEnc::read shape="1 trap, hybridized, 1 component" loops="volatile_set=80;zeroize=80;memcmp=34"
 roundtrip_contract!(ser__xenc_hybridized, XEnc, XEnc { tag: kani::any(), c: vec![Pk { 0: any_fe() }], encapsulations: Encapsulations::HEncs(vec![(KemEnc { 0: kani::any() }, kani::any())]) });
+
+// (round-trips of whole user / master keys did not finish in 15 min under CBMC; covered natively by serialization__length_write_read_roundtrip)
